@@ -6,7 +6,12 @@ use crate::nint::NInt;
 use crate::nnum::NNum;
 use crate::rc::*;
 use num::complex::Complex64;
+#[cfg(not(betaveros_noulith_verif))]
 use std::collections::{HashMap, HashSet};
+#[cfg(betaveros_noulith_verif)]
+use std::collections::HashSet;
+#[cfg(betaveros_noulith_verif)]
+use crate::verif_hooks::{HashMap, NewExt};
 use std::fmt;
 use std::fmt::Display;
 
